@@ -48,6 +48,9 @@ structure WState where
   evChecks : Nat := 0
   afterPurge : Bool := false   -- between an op that makes deletions effective and the next mutating op
   afterDeadOp : Bool := false  -- between a mutating storage access through a dead handle and the next mutating op
+  -- stand-alone C01 check: every handle returned by a creation of this case, pairwise distinct
+  c01Seen : Std.HashSet (Nat × Int) := {}
+  c01Dead : Bool := false
   -- statistics
   cases : Nat := 0
   lines : Nat := 0
@@ -174,7 +177,7 @@ def worldLine (st : WState) (line : String) : WState × List String :=
   | ["case", id] =>
     let (st, outs) := st.closeCase
     ({ st with caseHash := 7, caseNontrivial := false, caseId := id, lineNo := 0, model := {},
-               diverged := false, pending := [], mon := {}, monDead := false, lgHeld := [], lgDeferred := [], lgDead := false, evMember := {}, evMask := {}, evOff := [], evDead := false, afterPurge := false, afterDeadOp := false, afterMaint := false, afterRjoin := false, pendingFault := none, leaked := st.leaked + st.mon.leaked, cases := st.cases + 1 }, outs)
+               diverged := false, pending := [], mon := {}, monDead := false, lgHeld := [], lgDeferred := [], lgDead := false, evMember := {}, evMask := {}, evOff := [], evDead := false, afterPurge := false, afterDeadOp := false, c01Seen := {}, c01Dead := false, afterMaint := false, afterRjoin := false, pendingFault := none, leaked := st.leaked + st.mon.leaked, cases := st.cases + 1 }, outs)
   | lt =>
     let (r, ledger) := splitLedger r0
     let st := { st with lineNo := st.lineNo + 1, lines := st.lines + 1,
@@ -420,7 +423,23 @@ def worldLine (st : WState) (line : String) : WState × List String :=
                   ({ st with evDead := true, mons := st.mons + 1 },
                    [s!"MON C12 case={st.caseId} line={st.lineNo} C12 replaying the insertion and removal events gives membership {sortNats mem} but the storage reports {sortNats ids} op=[{l}] impl=[{r}]"])
           | _, _ => (st, [])
-        (st, out1 ++ out2 ++ out3 ++ out4))
+        -- 5. stand-alone handle uniqueness (C01): independent of the timeline monitor, which stops at its first rejection
+        let (st, out5) :=
+          if st.c01Dead || !(["create", "createw", "create_iter", "lazy_create"].contains kind) then (st, []) else
+          let news : List Entity := match ires with
+            | .e (.ent e) => [e]
+            | .e (.ents es) => es
+            | _ => []
+          let step := news.foldl (fun (acc : Std.HashSet (Nat × Int) × Option Entity) e =>
+            match acc.2 with
+            | some _ => acc
+            | none => if acc.1.contains (e.id, e.gen) then (acc.1, some e) else (acc.1.insert (e.id, e.gen), none)) (st.c01Seen, none)
+          match step with
+          | (seen, none) => ({ st with c01Seen := seen }, [])
+          | (_, some e) =>
+            ({ st with c01Dead := true, mons := st.mons + 1 },
+             [s!"MON C01 case={st.caseId} line={st.lineNo} C01 the handle {e.id}:{e.gen} was returned by an entity creation although an earlier creation of this world had returned it already op=[{l}] impl=[{r}]"])
+        (st, out1 ++ out2 ++ out3 ++ out4 ++ out5))
     (st', zstOut ++ outs')
 
 partial def worldLoop (h : IO.FS.Stream) (st : WState) : IO WState := do
